@@ -153,3 +153,32 @@ def run(prog, R):
     for name, w in want.items():
         R.ob("C04.4-list-end-table", name, got.get(name) == w, prog.body(ALE).at if prog.body(ALE) else "", f"end tokens of flavor {name}: {sorted(got.get(name, []))} (expected {sorted(w)})")
     R.floor("list flavors", len(fl or []), 10)
+    # ---- C04.4 comma-separated lists are homogeneous: a grammar function that parses the first item before its comma
+    # loop parses the later items with the same item parser (sibling agreement between the two positions).  A list whose
+    # first item may be a range and whose later items may not (`a[0, 1:3]`) rejects valid programs that no probe window
+    # of the interpreter is long enough to hold.  Exception, reviewed: array_type_spec (`array[int, 3, 4]`: a type, then
+    # the dimensions).
+    HETERO = {"oq3_parser::grammar::expressions::array_type_spec": "array[<type>, <dim>, ...]: the first position is the element type, the others are dimension expressions"}
+    nlist, badl = 0, []
+    for k_, b_ in sorted(prog.bodies.items()):
+        if not k_.startswith("oq3_parser::grammar::") or "{closure" in k_:
+            continue
+        loops_ = b_.natural_loops()
+        if not loops_:
+            continue
+        dom_ = b_.dominators()
+        for h_, blocks_ in loops_:
+            comma_ = any(bi in blocks_ and (b_.callee_of(t) or "").endswith(("Parser::eat", "Parser::at", "Parser::expect", "Parser::nth_at")) and '"COMMA"' in json.dumps(b_.blocks[bi].stmts) for bi, t in b_.calls())
+            if not comma_:
+                continue
+            nlist += 1
+            inl_ = {(b_.callee_of(t) or "") for bi, t in b_.calls() if bi in blocks_ and (b_.callee_of(t) or "").startswith("oq3_parser::grammar::")}
+            pre_ = {(b_.callee_of(t) or "") for bi, t in b_.calls() if bi not in blocks_ and bi in dom_[h_] and (b_.callee_of(t) or "").startswith("oq3_parser::grammar::")}
+            odd_ = sorted(c.split("::")[-1] for c in pre_ - inl_)
+            if odd_ and k_ in HETERO:
+                R.reviewed("C04.4-list-items-homogeneous", k_.split("grammar::")[-1], b_.at, HETERO[k_])
+            elif odd_:
+                badl.append((k_.split("grammar::")[-1], odd_, sorted(c.split("::")[-1] for c in inl_)))
+    R.ob("C04.4-list-items-homogeneous", "the item before a comma loop is parsed by an item parser of the loop", nlist >= 4 and not badl, "",
+         f"{nlist} comma loops in grammar functions; none parses its first item differently" if not badl else
+         f"(function, first-item parser, loop item parsers) {badl[:2]}: items after a comma are parsed by a different parser than the first item, so a construct allowed in first position (a range, say) is a syntax error in the others")
